@@ -268,6 +268,7 @@ def roles_and_tags(src):
     def tag(n, t):
         tags.setdefault(n, set()).add(t)
     lines = src.split('\n')
+    attrish, varish = set(), set()
     for node in ast.walk(tree):
         if isinstance(node, ast.Name):
             roles[(node.lineno, node.col_offset)] = 'store' if isinstance(node.ctx, (ast.Store, ast.Del)) else 'load'
@@ -287,12 +288,13 @@ def roles_and_tags(src):
                     if isinstance(st, ast.Assign):
                         for t in st.targets:
                             if isinstance(t, ast.Name):
-                                tag(t.id, 'class-attr')
+                                attrish.add(t.id)
+                                t._class_level = True
                     if isinstance(st, ast.FunctionDef):
-                        tag(st.name, 'class-attr')
+                        attrish.add(st.name)
         elif isinstance(node, ast.Attribute):
             roles[(node.end_lineno, node.end_col_offset - len(node.attr))] = 'attr'
-            tag(node.attr, 'class-attr')
+            attrish.add(node.attr)
         elif isinstance(node, (ast.Global, ast.Nonlocal)):
             pos = node.col_offset
             for nm in node.names:
@@ -304,7 +306,99 @@ def roles_and_tags(src):
             tag(node.target.id, 'module-for')
         elif isinstance(node, ast.comprehension) and isinstance(node.target, ast.Name):
             tag(node.target.id, 'comp-var')
+    for node in ast.walk(tree):
+        if isinstance(node, ast.Name) and not getattr(node, '_class_level', False):
+            varish.add(node.id)
+        elif isinstance(node, ast.arg):
+            varish.add(node.arg)
+    for nm in attrish & varish:          # one spelling for an attribute/method AND for a variable
+        tag(nm, 'class-attr')
     return roles, tags
+
+
+SHAPES = [
+    # two unrelated classes with a same-named method, joined only by a union-typed receiver
+    '''flag_zz = len(str(id(object))) > 50
+class Cat:
+    def speak(self):
+        return 'meow'
+class Dog:
+    def speak(self):
+        return 'woof'
+rex = Dog()
+print(rex.speak())
+pet = Cat() if flag_zz else rex
+print(pet.speak())
+''',
+    # override in a subclass, called through the base
+    '''class Base:
+    def render(self):
+        return self.part() + '!'
+    def part(self):
+        return 'base'
+class Child(Base):
+    def part(self):
+        return 'child'
+for item in (Base(), Child()):
+    print(item.render(), item.part())
+''',
+    # function alias and higher-order use
+    '''def compute(value):
+    return value * 2
+alias_fn = compute
+def apply(fn, arg):
+    return fn(arg)
+print(apply(compute, 2), alias_fn(3), apply(alias_fn, 4))
+''',
+    # module-level counter through global, closure reading an enclosing variable
+    '''counter = 0
+def bump(step):
+    global counter
+    counter = counter + step
+    return counter
+def make_adder(amount):
+    def adder(number):
+        return number + amount
+    return adder
+print(bump(2), bump(3), counter, make_adder(5)(1))
+''',
+    # keyword arguments, defaults referring to module names, a decorator
+    '''scale = 3
+def logged(func):
+    def wrapper(*args, **kwargs):
+        return func(*args, **kwargs)
+    return wrapper
+@logged
+def area(width, height=scale):
+    return width * height
+print(area(2), area(width=2, height=5), area(height=1, width=scale))
+''',
+    # the same without the decorator
+    '''scale = 3
+def area(width, height=scale):
+    return width * height
+def volume(width, height, depth=1):
+    return area(width, height=height) * depth
+print(area(2), area(width=2, height=5), area(height=1, width=scale), volume(1, depth=2, height=3))
+''',
+    # instance attributes set in several methods, class attribute read through the class and the instance
+    '''class Account:
+    rate = 2
+    def __init__(self, balance):
+        self.balance = balance
+        self.history = []
+    def deposit(self, amount):
+        self.balance = self.balance + amount
+        self.history.append(amount)
+        return self.balance * Account.rate
+acct = Account(10)
+print(acct.deposit(5), acct.balance, acct.history, acct.rate, Account.rate)
+''',
+]
+
+SHAPE_NAMES = ['union-receiver', 'override', 'function-alias', 'global-closure', 'decorated-kwargs', 'kwargs',
+               'instance-attrs']
+assert len(SHAPE_NAMES) == len(SHAPES)
 
 
 # ---------------------------------------------------------------- one program: all occurrences
@@ -326,6 +420,14 @@ def occurrences_job(arg):
     except SyntaxError:
         roles, tags = {}, {}
     picks = idents if len(idents) <= 45 else rng.sample(idents, 45)
+    kwocc = []
+    try:
+        for node in ast.walk(ast.parse(src)):
+            if isinstance(node, ast.keyword) and node.arg and (node.lineno, node.col_offset) in occ_id:
+                kwocc.append(occ_id[(node.lineno, node.col_offset)])
+    except SyntaxError:
+        pass
+    kwocc.sort()
     for (l, c, text) in picks:
         s = jedi.Script(src)
         info = {'line': l, 'col': c, 'name': text, 'role': roles.get((l, c), 'other'),
@@ -373,7 +475,7 @@ def occurrences_job(arg):
         except Exception:  # noqa
             rt = False
         ev = _ev('ok')
-        ev.update(refsets=refsets, rewritten=sorted(occ_id[(a, b)] for (a, b) in rewritten), extra=extra,
+        ev.update(refsets=refsets, kwrefs=kwocc, rewritten=sorted(occ_id[(a, b)] for (a, b) in rewritten), extra=extra,
                   refclass=refclass, known=bool(known), samerun=after == before, roundtrip=bool(rt))
         events.append(ev)
         info.update(refs=refs, rewritten=rewritten, refclass=[p for p, k in classes.items() if known and k == key],
@@ -383,7 +485,7 @@ def occurrences_job(arg):
 
 
 def _ev(outcome):
-    return {'outcome': outcome, 'refsets': [[0]], 'rewritten': [], 'extra': 0, 'refclass': [], 'known': False,
+    return {'outcome': outcome, 'refsets': [[0]], 'kwrefs': [], 'rewritten': [], 'extra': 0, 'refclass': [], 'known': False,
             'samerun': True, 'roundtrip': True}
 
 
@@ -539,6 +641,8 @@ def run(ctx):
         if run_src(src)[0] == 'SyntaxError':
             continue
         progs.append(('generated', src, ctx.seed * 1000 + len(progs)))
+    for i, sh in enumerate(SHAPES):
+        progs.append(('shape:' + SHAPE_NAMES[i], sh, ctx.seed * 1000 + 900 + i))
     ctx.log('%d generated programs' % len(progs))
     res1 = jutil.pmap(occurrences_job, progs, chunksize=1)
     jutil.check_worker_errors(res1)
@@ -550,7 +654,7 @@ def run(ctx):
     for r in res1:
         for ev, info in zip(r['events'], r['infos']):
             traces.append([ev])
-            owners.append(('generated', dict(info, source=r['src'])))
+            owners.append((r['kind'], dict(info, source=r['src'])))
     for r in res2:
         traces.append([r['event']])
         owners.append(('project', r['info']))
